@@ -61,6 +61,13 @@ type lsSpec struct {
 	F    string   `json:"f,omitempty"`   // float bits (hex)
 	Obs  []string `json:"obs,omitempty"` // histogram observations (hex bits)
 	T    int64    `json:"t"`             // datum time, ns
+	// Lit: a datum.Buckets literal put into the metric with AppendLabelValue
+	// (bucket counts in the order of the metric's ranges), not built by Observe
+	Lit *litSpec `json:"lit,omitempty"`
+}
+type litSpec struct {
+	Counts []uint64 `json:"counts"`
+	Sum    string   `json:"sum"`
 }
 type mSpec struct {
 	Name   string   `json:"name"` // quoted
@@ -70,7 +77,10 @@ type mSpec struct {
 	Keys   []string `json:"keys"`
 	Source string   `json:"source"`
 	Bounds []string `json:"bounds,omitempty"`
-	Ls     []lsSpec `json:"ls"`
+	// Ranges, when present, are the metric's Buckets as given to the store API,
+	// in this order (not necessarily ascending, +Inf anywhere or absent)
+	Ranges [][2]string `json:"ranges,omitempty"`
+	Ls     []lsSpec    `json:"ls"`
 }
 type storeSpec struct {
 	Kind   string    `json:"kind"`
@@ -122,10 +132,29 @@ func build(sp storeSpec) (*metrics.Store, [][]builtMetric) {
 					bs[i] = unhx(b)
 				}
 				m.Buckets = rangesOf(bs)
+				if len(ms.Ranges) > 0 {
+					m.Buckets = nil
+					for _, r := range ms.Ranges {
+						m.Buckets = append(m.Buckets, datum.Range{Min: unhx(r[0]), Max: unhx(r[1])})
+					}
+				}
 			}
 			bm := builtMetric{spec: ms, m: m}
 			for _, l := range ms.Ls {
 				vals := vlib.UnQs(l.Vals)
+				if l.Lit != nil {
+					b := &datum.Buckets{Sum: unhx(l.Lit.Sum)}
+					for i, r := range m.Buckets {
+						b.Buckets = append(b.Buckets, datum.BucketCount{Range: r, Count: l.Lit.Counts[i]})
+						b.Count += l.Lit.Counts[i]
+					}
+					b.Time = l.T
+					if err := m.AppendLabelValue(&metrics.LabelValue{Labels: vals, Value: b}); err != nil {
+						panic(err)
+					}
+					bm.ls = append(bm.ls, builtLS{l, vals, b})
+					continue
+				}
 				d, err := m.GetDatum(vals...)
 				if err != nil {
 					panic(err)
@@ -410,14 +439,28 @@ func check(sp storeSpec, built [][]builtMetric, got []sample, scrapeErr error) [
 					if !s.Hist || s.Count != cnt || s.Sum != f2b(sum) {
 						add("value-differs", fmt.Sprintf("%s: histogram count/sum %d/%016x exported as %d/%016x", where, cnt, f2b(sum), s.Count, s.Sum))
 					}
+					// recompute from the store: the datum's buckets ordered by upper
+					// bound (whatever their order in the slice), then accumulated
+					sorted := append([]datum.BucketCount(nil), bcs...)
+					sort.SliceStable(sorted, func(i, j int) bool { return sorted[i].Range.Max < sorted[j].Range.Max })
 					var cum uint64
-					okc := len(s.Cum) == len(bcs)
-					for i := 0; okc && i < len(bcs); i++ {
-						cum += bcs[i].Count
-						okc = s.Cum[i][0] == f2b(bcs[i].Range.Max) && s.Cum[i][1] == cum
+					okc := len(s.Cum) == len(sorted)
+					for i := 0; okc && i < len(sorted); i++ {
+						cum += sorted[i].Count
+						okc = s.Cum[i][0] == f2b(sorted[i].Range.Max) && s.Cum[i][1] == cum
 					}
 					if !okc {
-						add("hist-buckets-differ", fmt.Sprintf("%s: exported buckets %v do not accumulate the datum's %v", where, s.Cum, bcs))
+						add("hist-buckets-not-cumulative-by-bound", fmt.Sprintf("%s: exported buckets %v are not the datum's %v accumulated in increasing order of the upper bound", where, s.Cum, bcs))
+					}
+					if l.spec.Lit == nil {
+						// _count and _sum against the observations themselves
+						var wsum float64
+						for _, o := range l.spec.Obs {
+							wsum += unhx(o)
+						}
+						if s.Count != uint64(len(l.spec.Obs)) || s.Sum != f2b(wsum) {
+							add("hist-count-sum-differ-from-observations", fmt.Sprintf("%s: %d observations summing to bits %016x exported as _count %d _sum bits %016x", where, len(l.spec.Obs), f2b(wsum), s.Count, s.Sum))
+						}
 					}
 					for i := 1; i < len(s.Cum); i++ {
 						if s.Cum[i][1] < s.Cum[i-1][1] {
@@ -507,11 +550,38 @@ func genStore(r *vlib.Rand) storeSpec {
 			}
 		}
 		var bounds []string
+		var ranges [][2]string
 		if typ == "buckets" {
 			b := vlib.Pick(r, []float64{0.001, 0.5, 1, 2})
 			for i, n := 0, 2+r.Intn(4); i < n; i++ {
 				bounds = append(bounds, hx(b))
 				b = b*2 + float64(r.Intn(3))*0.25
+			}
+			// the store API takes ranges in any order: descending, shuffled, with
+			// the +Inf range in the middle or left to MakeBuckets (distinct bounds)
+			if r.Chance(45) {
+				bs := make([]float64, len(bounds))
+				for i, x := range bounds {
+					bs[i] = unhx(x)
+				}
+				rs := rangesOf(bs)
+				if r.Chance(50) {
+					rs = rs[:len(rs)-1] // no +Inf range: MakeBuckets appends it
+				}
+				switch r.Intn(3) {
+				case 0:
+					for i, j := 0, len(rs)-1; i < j; i, j = i+1, j-1 {
+						rs[i], rs[j] = rs[j], rs[i]
+					}
+				default:
+					for i := len(rs) - 1; i > 0; i-- {
+						j := r.Intn(i + 1)
+						rs[i], rs[j] = rs[j], rs[i]
+					}
+				}
+				for _, x := range rs {
+					ranges = append(ranges, [2]string{hx(x.Min), hx(x.Max)})
+				}
 			}
 		}
 		// one metric per name, or (prog label on) the same name in several programs
@@ -531,7 +601,7 @@ func genStore(r *vlib.Rand) storeSpec {
 			}
 			progs[prog] = true
 			ms := mSpec{Name: vlib.Q(name), Prog: vlib.Q(prog), Kind: kind, Type: typ, Keys: vlib.Qs(keys),
-				Source: vlib.Q(fmt.Sprintf("%s:%d:%d-%d", prog, 1+r.Intn(40), 1+r.Intn(20), 21+r.Intn(9))), Bounds: bounds}
+				Source: vlib.Q(fmt.Sprintf("%s:%d:%d-%d", prog, 1+r.Intn(40), 1+r.Intn(20), 21+r.Intn(9))), Bounds: bounds, Ranges: ranges}
 			nls := r.Intn(6)
 			if nk == 0 && nls > 1 {
 				nls = 1
@@ -569,6 +639,19 @@ func genStore(r *vlib.Rand) storeSpec {
 						l.F = hx(math.Float64frombits(r.Uint64()))
 					}
 				case "buckets":
+					hasInf := false
+					for _, x := range ranges {
+						hasInf = hasInf || math.IsInf(unhx(x[1]), 1)
+					}
+					if hasInf && r.Chance(35) {
+						// a literal datum with arbitrary counts per (unordered) range
+						lit := &litSpec{Sum: hx(vlib.Pick(r, floatPool))}
+						for range ranges {
+							lit.Counts = append(lit.Counts, uint64(r.Intn(6)))
+						}
+						l.Lit = lit
+						break
+					}
 					for i, n := 0, r.Intn(8); i < n; i++ {
 						v := vlib.Pick(r, floatPool)
 						if r.Chance(60) {
@@ -626,13 +709,35 @@ func runStore(out *vlib.Out, sp storeSpec, stream string) {
 			}
 		}
 	}
+	unordered, literal := false, false
+	for _, g := range sp.Groups {
+		for _, ms := range g {
+			unordered = unordered || len(ms.Ranges) > 0
+			for _, l := range ms.Ls {
+				literal = literal || l.Lit != nil
+			}
+		}
+	}
 	out.Count(fmt.Sprintf("%s/omit=%v/ts=%v/samples=%d/unrepresentable=%v", stream, sp.Omit, sp.Emit, len(got)/4*4, nbad > 0))
+	if unordered {
+		out.Count("stores-with-histogram-ranges-not-ascending")
+	}
+	if literal {
+		out.Count("stores-with-literal-buckets-datum")
+	}
 }
 
 func corpus() []storeSpec {
 	q := vlib.Q
 	ls := func(v string, i int64) lsSpec { return lsSpec{Vals: []string{q(v)}, I: i, T: 1700000000123456789} }
+	desc := [][2]string{{hx(2), hx(4)}, {hx(1), hx(2)}, {hx(0), hx(1)}}
+	mid := [][2]string{{hx(1), hx(2)}, {hx(2), hx(math.Inf(1))}, {hx(0), hx(1)}}
 	return []storeSpec{
+		// ranges not ascending in the store: MakeBuckets + Observe, and a literal datum
+		{Kind: "store", Groups: [][]mSpec{{{Name: q("lat_desc"), Prog: q("p.mtail"), Kind: "histogram", Type: "buckets", Keys: []string{},
+			Source: q("p.mtail:6:11-18"), Ranges: desc, Ls: []lsSpec{{Vals: []string{}, Obs: []string{hx(0.5), hx(0.5), hx(0.5), hx(3)}, T: 9000000}}}},
+			{{Name: q("lat_lit"), Prog: q("p.mtail"), Kind: "histogram", Type: "buckets", Keys: []string{q("k")},
+				Source: q("p.mtail:7:11-17"), Ranges: mid, Ls: []lsSpec{{Vals: []string{q("x")}, T: 9500000, Lit: &litSpec{Counts: []uint64{5, 1, 2}, Sum: hx(7.5)}}}}}}},
 		// the C12/C13 witness: ok1, bad\xff, ok2
 		{Kind: "store", Groups: [][]mSpec{{{Name: q("foo"), Prog: q("p.mtail"), Kind: "counter", Type: "int", Keys: []string{q("a")},
 			Source: q("p.mtail:1:9-11"), Ls: []lsSpec{ls("ok1", 1), ls("bad\xff", 2), ls("ok2", 3)}}}}},
@@ -668,7 +773,7 @@ func main() {
 	for i := 0; i < n; i++ {
 		runStore(out, genStore(r), "main")
 	}
-	out.Flush("stores of 0-6 metric names (1-3 programs per name) of every kind/type, 0-3 keys (incl. a key named prog and invalid label names), 0-5 label sets with values negative, > 2^53, non-finite, random bit patterns, label values with quotes, backslashes, newlines and invalid UTF-8, prog label on/off, timestamps on/off; non-trivial when the store has >= 3 label sets over >= 2 exported kinds", false)
+	out.Flush("stores of 0-6 metric names (1-3 programs per name) of every kind/type, 0-3 keys (incl. a key named prog and invalid label names), 0-5 label sets, histograms whose ranges are stored ascending, descending or shuffled (+Inf last, in the middle or appended by MakeBuckets) filled by observations (incl. non-finite) or given as literal datums, values negative, > 2^53, non-finite, random bit patterns, label values with quotes, backslashes, newlines and invalid UTF-8, prog label on/off, timestamps on/off; non-trivial when the store has >= 3 label sets over >= 2 exported kinds", false)
 }
 
 func replay(path string) {
